@@ -203,7 +203,9 @@ def sig_of(v, row, m):
         cls = "%s:%s" % (a[0], a[1]) if a[0] == "Step" else a[0]
         alias = a[2]
     entry = m["entry"] if m["kind"] in ("feature", "file", "fragment") else m["kind"]
-    if field in ("step_type", "name", "keyword", "shape", "language"):       # may depend on the keyword table: name language and alias
+    if field == "language":
+        return "%s|entry=%s|lang=%s|field=language|line=%s" % (clause, entry, m["lang"], cls)
+    if field in ("step_type", "name", "keyword", "shape"):       # may depend on the keyword table: name language and alias
         return "%s|entry=%s|lang=%s|field=%s|line=%s|alias=%s" % (clause, entry, m["lang"], field, cls, alias.strip())
     return "%s|entry=%s|field=%s|line=%s" % (clause, entry, field, cls)
 
